@@ -11,7 +11,7 @@ from hypothesis import strategies as st
 
 from ..common import Result, scratch_dir
 from ..hyp import campaign
-from ..lib import READ_APIS, new_table, run_read
+from ..lib import READ_APIS, new_table, run_read, setup_append
 from ..reader import DirFS, read_view, current_snapshot, rows_multiset
 from .. import tbl
 
@@ -108,7 +108,7 @@ def check_case(case):
     with scratch_dir("c12") as d:
         t = new_table(d + "/t", fields)
         for rows in case["files"]:
-            t.append_records(rows)
+            setup_append(t, rows)
         stored = []
         if case["files"]:
             snap = current_snapshot(read_view(DirFS(d + "/t")))
@@ -255,7 +255,7 @@ def check_malformed(case):
     out = {"violations": [], "labels": [f"malformed:{case['klass']}"], "nontrivial": True}
     with scratch_dir("c12m") as d:
         t = new_table(d + "/t", case["fields"])
-        t.append_records(case["rows"])
+        setup_append(t, case["rows"])
         for api, v in COMBOS:
             try:
                 r = run_read(t, api, case["filter"], None, v)
@@ -285,7 +285,7 @@ def run_setlaws(task):
             for v in f:
                 rid += 1
                 rows.append({"x": v, "rid": rid})
-            t.append_records(rows)
+            setup_append(t, rows)
         single = {}
         for op in ("in", "not_in"):
             for i, v in enumerate(cand):
